@@ -34,7 +34,8 @@ structure Adj where
 structure Matrix where
   /-- `MatrixSetup = map[string][]string`; a `nil` slice value is `none`, an empty non-nil one `some []`. -/
   setup : List (String × Option (List String))
-  adjustments : List Adj
+  /-- `MatrixAdjustments = []*MatrixAdjustment`: a `null` entry parses to a nil pointer (`none`). -/
+  adjustments : List (Option Adj)
   deriving Repr
 
 /-- `m.Setup[dim]`: `none` when the dimension is absent *or* maps to a nil slice (the code tests `== nil`). -/
@@ -56,9 +57,10 @@ def allMatch {α : Type} (l : List α) (good : α → Bool) : Bool :=
   | x :: r => if good x then allMatch r good else false
 
 /-- The loop over `m.Adjustments`, carrying `valid`. -/
-def adjLoop (m : Matrix) (p : List (String × String)) : List Adj → Bool → Except Err Bool
+def adjLoop (m : Matrix) (p : List (String × String)) : List (Option Adj) → Bool → Except Err Bool
   | [], valid => .ok valid
-  | adj :: rest, valid =>
+  | none :: _, _ => .error .adjLen          -- a null adjustment is malformed
+  | some adj :: rest, valid =>
     if adj.with_.length != m.setup.length then .error .adjLen
     else
       match firstErr adj.with_ (fun e => (setupGet m e.1).isNone) .adjUnknownDim with
@@ -104,7 +106,7 @@ def keys {V : Type} (l : List (String × V)) : List String := l.map (·.1)
 structure WF (m : Option Matrix) (p : List (String × String)) : Prop where
   pKeys : (keys p).Nodup
   setupKeys : ∀ mm, m = some mm → (keys mm.setup).Nodup
-  adjKeys : ∀ mm, m = some mm → ∀ a ∈ mm.adjustments, (keys a.with_).Nodup
+  adjKeys : ∀ mm, m = some mm → ∀ a, some a ∈ mm.adjustments → (keys a.with_).Nodup
 
 /-- The permutation names each matrix dimension exactly once
     (a dimension "exists" when its value list is non-nil, as the code tests it). -/
@@ -129,8 +131,8 @@ def accept (m : Option Matrix) (p : List (String × String)) : Prop :=
   | none => p = []
   | some m =>
     namesEachDimOnce m p ∧
-    (∀ a ∈ m.adjustments, adjWellFormed m a) ∧
-    (isCombination m p ∨ ∃ a ∈ m.adjustments, adjEquals a p) ∧
-    (∀ a ∈ m.adjustments, adjEquals a p → shouldSkip a.skip = false)
+    (∀ x ∈ m.adjustments, ∃ a, x = some a ∧ adjWellFormed m a) ∧
+    (isCombination m p ∨ ∃ a, some a ∈ m.adjustments ∧ adjEquals a p) ∧
+    (∀ a, some a ∈ m.adjustments → adjEquals a p → shouldSkip a.skip = false)
 
 end GoPipeline.MatrixV
